@@ -330,3 +330,89 @@ class DanglingConditionValidate(Contract):
 
     def frame_ok(self, I, inp, obj, name):
         return False
+
+
+VM = "sigma.validators.core.metadata"
+
+
+def _mk_unique(clsname, issue, attr, store):
+    class C(Contract):
+        __doc__ = f"""{clsname}: after any sequence of validate() calls, finalize() names exactly the groups of two or more rules sharing a {attr}
+        (each group once, with all its rules in validation order); rules without {attr} are ignored"""
+        id = f"C19.{clsname}.finalize"
+        target = f"{VM}:{clsname}.finalize"
+        props = ("C19",)
+        cases = (("A", "A", "B", None), ("A", "B", "C"), ("A", "B", "A", "B", "A"), ())
+        assumed = ["history: validate() was called once per rule of the case, on a freshly constructed validator (executed on the real code)"]
+
+        def setup(self, E):
+            DanglingDetectionValidate.setup(self, E)
+
+        def args(self, I, case):
+            idx = I.E.index
+            me = I.instantiate(idx.lookup(f"{VM}:{clsname}"), [], {})
+            rules = [SObj(idx.lookup("sigma.rule.rule:SigmaRule"), {attr: v}, lazy=True) for v in case]
+            return {"self": me, "args": [], "rules": rules, "case": case}
+
+        def before(self, I, inp):
+            v = I.E.index.lookup(f"{VM}:{clsname}.validate")
+            for r in inp["rules"]:
+                out = I.call_function(v, inp["self"], [r], {})
+                I.ctx.require(out == [], "validate() itself reports nothing")
+
+        def post(self, I, inp, r):
+            groups = {}
+            for rule, v in zip(inp["rules"], inp["case"]):
+                if v is not None:
+                    groups.setdefault(v, []).append(rule)
+            want = {k: g for k, g in groups.items() if len(g) > 1}
+            r = I.force(r) if not isinstance(r, list) else r
+            ok = isinstance(r, list) and len(r) == len(want)
+            I.ctx.require(ok, f"one issue per {attr} shared by several rules ({sorted(want)})")
+            if ok:
+                for iss in r:
+                    a = iss.ghost["args"]
+                    key = a[1]
+                    I.ctx.require(key in want and len(a[0]) == len(want[key]) and all(x is y for x, y in zip(a[0], want[key])), f"the issue for {key!r} names exactly the rules with that {attr}, in validation order")
+
+        def frame_ok(self, I, inp, obj, name):
+            return False
+    C.__name__ = "Unique_" + clsname
+    return C
+
+
+register(_mk_unique("IdentifierUniquenessValidator", "IdentifierCollisionIssue", "id", "ids"))
+register(_mk_unique("DuplicateTitleValidator", "DuplicateTitleIssue", "title", "titles"))
+
+
+@register
+class DuplicateReferences(Contract):
+    """DuplicateReferencesValidator: one issue per reference that occurs more than once in the rule, none otherwise"""
+    id = "C19.DuplicateReferencesValidator.validate"
+    target = f"{VM}:DuplicateReferencesValidator.validate"
+    props = ("C19",)
+    cases = ((), ("a",), ("a", "b"), ("a", "a"), ("a", "b", "a", "b", "c"), ("a", "a", "a"))
+
+    def setup(self, E):
+        DanglingDetectionValidate.setup(self, E)
+        from collections import Counter
+
+        def x_counter(I, a, k):
+            c = {}
+            for x in a[0]:
+                c[x] = c.get(x, 0) + 1
+            return c
+        E.externals["collections.Counter"] = x_counter
+
+    def args(self, I, case):
+        rule = SObj(I.E.index.lookup("sigma.rule.rule:SigmaRule"), {"references": list(case)}, lazy=True)
+        return {"self": SObj(I.E.index.lookup(f"{VM}:DuplicateReferencesValidator"), {}, lazy=True), "args": [rule], "rule": rule, "case": case}
+
+    def post(self, I, inp, r):
+        want = sorted({x for x in inp["case"] if inp["case"].count(x) > 1})
+        r = I.force(r) if not isinstance(r, list) else r
+        got = sorted(x.ghost["args"][1] for x in r) if isinstance(r, list) else None
+        I.ctx.require(got == want and all(x.ghost["args"][0] == [inp["rule"]] for x in r), f"exactly the repeated references {want} are reported, each once, for this rule")
+
+    def frame_ok(self, I, inp, obj, name):
+        return False
